@@ -35,74 +35,75 @@ Proof. intros. unfold fire_time. pose proof (quant_bounds (tnow + d)). lia. Qed.
 (* ================================================================================================ *)
 (* the opening-handshake timer *)
 Definition openF (c : cfg) : N := fire_time (t_start c) (openHandshakeTimeout c).
-Definition conn_state (c : cfg) (n : N) : cstate :=
+Definition conn_state (c : cfg) (n : N) (p : bool) : cstate :=
   mkS CONNECTING n false false false false false RNone None None None None false false false
       (Some 0) None None None None 1
       [mkT (openF c) (Some (quant (t_start c + openHandshakeTimeout c))) [(TOpenHS, 0)]]
-      None 0 None None.
+      None 0 None None p.
 
-Lemma init_conn_state : forall c, 0 < openHandshakeTimeout c -> init c = conn_state c (t_start c).
+Lemma init_conn_state : forall c, 0 < openHandshakeTimeout c -> init c = conn_state c (t_start c) (negb (is_server c) && c_proxy c).
 Proof.
   intros c H. unfold init, whenM. apply N.ltb_lt in H. rewrite H. reflexivity.
 Qed.
 
 (* events that are not a reaction of the peer to the opening handshake *)
 Definition no_open_reaction (e : event) : Prop :=
-  match e with EHandshake | EBadHandshake | EPeerDrop _ => False | _ => True end.
+  match e with EHandshake | EBadHandshake | EProxyBad | EPeerDrop _ => False | _ => True end.
 Definition tick_before (F : N) (e : event) : Prop := match e with ETick t => t < F | _ => True end.
 
 Opaque openF.
-Lemma connecting_step : forall c e n, let F := openF c in
+Lemma connecting_step : forall c e n p, let F := openF c in
   no_open_reaction e -> tick_before F e ->
-  exists n', fst (step c (conn_state c n) e) = conn_state c n' /\ n <= n' /\ (n' = n \/ n' < F)
-             /\ forall x, In x (snd (step c (conn_state c n) e)) -> is_raise x = true.
+  exists n' p', fst (step c (conn_state c n p) e) = conn_state c n' p' /\ n <= n' /\ (n' = n \/ n' < F).
 Proof.
-  intros c e n F Hr Ht. subst F. unfold conn_state. destruct e; simpl in Hr; try contradiction; unfold step, handle.
+  intros c e n p F Hr Ht. subst F. unfold conn_state. destruct e; simpl in Hr; try contradiction; unfold step, handle.
+  - (* the proxy answers the CONNECT: the same timer keeps running *)
+    destruct p; [exists n, false | exists n, false]; simpl; (split; [reflexivity|split; [lia|auto]]).
   - (* sendClose *)
-    exists n. unfold send_close.
+    exists n, p. unfold send_close.
     destruct (match code with Some cd => negb (api_code_ok cd) | None => false end);
       [|destruct (isSome reason && negb (isSome code))]; simpl;
-      (split; [reflexivity|split; [lia|split; [auto|intros x [Hx|[]]; subst; reflexivity]]]).
-  - exists n. simpl. split; [reflexivity|split; [lia|split; [auto|intros x [Hx|[]]; subst; reflexivity]]].
-  - exists n. simpl. split; [reflexivity|split; [lia|split; [auto|intros x []]]].
-  - exists n. simpl. split; [reflexivity|split; [lia|split; [auto|intros x []]]].
-  - exists n. simpl. split; [reflexivity|split; [lia|split; [auto|intros x []]]].
-  - exists n. simpl. split; [reflexivity|split; [lia|split; [auto|intros x []]]].
-  - exists n. simpl. split; [reflexivity|split; [lia|split; [auto|intros x []]]].
-  - exists n. simpl. split; [reflexivity|split; [lia|split; [auto|intros x []]]].
-  - exists n. simpl. split; [reflexivity|split; [lia|split; [auto|intros x []]]].
-  - exists n. simpl. split; [reflexivity|split; [lia|split; [auto|intros x []]]].
-  - exists n. simpl. split; [reflexivity|split; [lia|split; [auto|intros x []]]].
+      (split; [reflexivity|split; [lia|auto]]).
+  - exists n, p. simpl. split; [reflexivity|split; [lia|auto]].
+  - exists n, p. simpl. split; [reflexivity|split; [lia|auto]].
+  - exists n, p. simpl. split; [reflexivity|split; [lia|auto]].
+  - exists n, p. simpl. split; [reflexivity|split; [lia|auto]].
+  - exists n, p. simpl. split; [reflexivity|split; [lia|auto]].
+  - exists n, p. simpl. split; [reflexivity|split; [lia|auto]].
+  - exists n, p. simpl. split; [reflexivity|split; [lia|auto]].
+  - exists n, p. simpl. split; [reflexivity|split; [lia|auto]].
+  - exists n, p. simpl. split; [reflexivity|split; [lia|auto]].
+  - exists n, p. simpl. split; [reflexivity|split; [lia|auto]].
   - (* tick before the fire time *)
-    simpl in Ht. exists (N.max n t).
+    simpl in Ht. exists (N.max n t), p.
     assert (E : (openF c <=? t) = false) by (apply N.leb_gt; exact Ht).
     unfold tick, bindS, seqM, pick_due. simpl. unfold bindS, pick_due. simpl. rewrite E.
-    unfold ret, upd. simpl. split; [reflexivity|]. split; [lia|]. split; [lia|]. intros x [].
-  - exists n. simpl. split; [reflexivity|split; [lia|split; [auto|intros x []]]].
+    unfold ret, upd. simpl. split; [reflexivity|]. split; [lia|]. lia.
+  - exists n, p. simpl. split; [reflexivity|split; [lia|auto]].
 Qed.
 
-Lemma connecting_run : forall c evs n log, let F := openF c in
+Lemma connecting_run : forall c evs n p log, let F := openF c in
   Forall no_open_reaction evs -> Forall (tick_before F) evs -> (n = t_start c \/ n < F) ->
-  exists n', fst (run_from c (conn_state c n) log evs) = conn_state c n' /\ n <= n' /\ (n' = t_start c \/ n' < F).
+  exists n' p', fst (run_from c (conn_state c n p) log evs) = conn_state c n' p' /\ n <= n' /\ (n' = t_start c \/ n' < F).
 Proof.
-  intros c evs. induction evs as [|e evs IH]; intros n log F H1 H2 Hn.
-  - exists n. simpl. split; [reflexivity|]. split; [lia|exact Hn].
+  intros c evs. induction evs as [|e evs IH]; intros n p log F H1 H2 Hn.
+  - exists n, p. simpl. split; [reflexivity|]. split; [lia|exact Hn].
   - inversion H1; subst. inversion H2; subst. rewrite run_from_cons.
-    destruct (connecting_step c e n H3 H5) as (n1 & E1 & Hle & Hor & _). unfold step in E1. rewrite E1.
-    destruct (IH n1 (log ++ snd (handle c e (conn_state c n))) H4 H6) as (n2 & E2 & Hle2 & Hor2).
+    destruct (connecting_step c e n p H3 H5) as (n1 & p1 & E1 & Hle & Hor). unfold step in E1. rewrite E1.
+    destruct (IH n1 p1 (log ++ snd (handle c e (conn_state c n p))) H4 H6) as (n2 & p2 & E2 & Hle2 & Hor2).
     { destruct Hor as [Hor|Hor]; [subst; exact Hn | right; exact Hor]. }
-    exists n2. split; [exact E2|]. split; [lia|exact Hor2].
+    exists n2, p2. split; [exact E2|]. split; [lia|exact Hor2].
 Qed.
 
 (* the timer fires: Tick to (or beyond) the fire time in CONNECTING *)
-Lemma open_timeout_fires : forall c n t, let F := openF c in
+Lemma open_timeout_fires : forall c n p t, let F := openF c in
   n <= F -> F <= t ->
-  let r := step c (conn_state c n) (ETick t) in
+  let r := step c (conn_state c n p) (ETick t) in
   st (fst r) = CLOSED /\ wasOpenTO (fst r) = true /\ ncr (fst r) = ROpenTO /\ wasClean (fst r) = false
   /\ droppedByMe (fst r) = true /\ timers (fst r) = [] /\ snd r = [(F, IsClosed); (F, Abort)]
   /\ gone (fst r) = false /\ now (fst r) = N.max F t.
 Proof.
-  intros c n t F Hn Ht. subst F. unfold conn_state.
+  intros c n p t F Hn Ht. subst F. unfold conn_state.
   assert (E : (openF c <=? t) = true) by (apply N.leb_le; exact Ht).
   unfold step, handle, tick, bindS, seqM, pick_due. simpl. unfold bindS, pick_due. simpl. rewrite E.
   rewrite N.eqb_refl.
@@ -171,7 +172,7 @@ Lemma run_split : forall c evs1 e evs2,
 Proof. intros. rewrite run_app, run_from_cons. reflexivity. Qed.
 
 Lemma handshake_from_connecting : forall c n,
-  st (fst (handle c EHandshake (conn_state c n))) = OPEN /\ wasOpenTO (fst (handle c EHandshake (conn_state c n))) = false.
+  st (fst (handle c EHandshake (conn_state c n false))) = OPEN /\ wasOpenTO (fst (handle c EHandshake (conn_state c n false))) = false.
 Proof.
   intros c n. unfold handle, ifS, connecting, conn_state. cbn_state.
   unfold handshake_ok, seqM, whenM.
@@ -187,13 +188,13 @@ Lemma silent_open : forall c evs1 t evs2,
   In (openF c, Abort) (snd r) /\ st (fst r) = CLOSED /\ wasOpenTO (fst r) = true.
 Proof.
   intros c evs1 t evs2 HT H1 H2 Ht. cbv zeta.
-  destruct (connecting_run c evs1 (t_start c) (init_out c) H1 H2 (or_introl eq_refl)) as (n & E & Hle & Hor).
+  destruct (connecting_run c evs1 (t_start c) (negb (is_server c) && c_proxy c) (init_out c) H1 H2 (or_introl eq_refl)) as (n & p & E & Hle & Hor).
   assert (Hn : n <= openF c).
   { destruct Hor as [Hor|Hor]; [|lia]. subst n. apply openF_ge. }
-  assert (E' : fst (run c evs1) = conn_state c n) by (unfold run; rewrite (init_conn_state c HT); exact E).
-  destruct (open_timeout_fires c n t Hn Ht) as (S1 & S2 & S3 & S4 & S5 & S6 & S7 & S8 & S9). unfold step in *.
+  assert (E' : fst (run c evs1) = conn_state c n p) by (unfold run; rewrite (init_conn_state c HT); exact E).
+  destruct (open_timeout_fires c n p t Hn Ht) as (S1 & S2 & S3 & S4 & S5 & S6 & S7 & S8 & S9). unfold step in *.
   rewrite run_split. rewrite E'. rewrite S7.
-  generalize dependent (fst (handle c (ETick t) (conn_state c n))). intros s1 S1 S2 S3 S4 S5 S6 S8 S9.
+  generalize dependent (fst (handle c (ETick t) (conn_state c n p))). intros s1 S1 S2 S3 S4 S5 S6 S8 S9.
   generalize (snd (run c evs1)). intros log1.
   split; [|split].
   - destruct (run_from_log_prefix c evs2 s1 (log1 ++ [(openF c, IsClosed); (openF c, Abort)])) as [o Ho].
@@ -235,13 +236,13 @@ Proof.
   rewrite E1, H1. simpl. rewrite E7, H2. rewrite E6, H3. simpl. rewrite E2, E8. reflexivity.
 Qed.
 
-Lemma open_timeout_report : forall c n t, n <= openF c -> openF c <= t ->
-  snd (step c (fst (step c (conn_state c n) (ETick t))) EOwnDrop) =
+Lemma open_timeout_report : forall c n p t, n <= openF c -> openF c <= t ->
+  snd (step c (fst (step c (conn_state c n p) (ETick t))) EOwnDrop) =
   [(N.max (openF c) t, CbClose false (Some code_abnormal_close) None ROpenTO)].
 Proof.
-  intros c n t Hn Ht.
-  destruct (open_timeout_fires c n t Hn Ht) as (S1 & S2 & S3 & S4 & S5 & S6 & S7 & S8 & S9).
-  set (s1 := fst (step c (conn_state c n) (ETick t))) in *.
+  intros c n p t Hn Ht.
+  destruct (open_timeout_fires c n p t Hn Ht) as (S1 & S2 & S3 & S4 & S5 & S6 & S7 & S8 & S9).
+  set (s1 := fst (step c (conn_state c n p) (ETick t))) in *.
   unfold step at 1. unfold handle, ifS. rewrite S8, S5. simpl negb. simpl andb. cbv iota.
   rewrite (conn_lost_report_unclean c s1 S1 S4 S5). rewrite S3, S9. reflexivity.
 Qed.
@@ -250,18 +251,19 @@ Qed.
 Lemma responsive_open : forall c evs1 evs2,
   0 < openHandshakeTimeout c ->
   Forall no_open_reaction evs1 -> Forall (tick_before (openF c)) evs1 ->
+  proxyPending (fst (run c evs1)) = false ->          (* no proxy, or the proxy has answered: the handshake can be read *)
   let r := run c (evs1 ++ EHandshake :: evs2) in
   wasOpenTO (fst r) = false /\ (1 <= rank (st (fst r)))%nat.
 Proof.
-  intros c evs1 evs2 HT H1 H2. cbv zeta.
-  destruct (connecting_run c evs1 (t_start c) (init_out c) H1 H2 (or_introl eq_refl)) as (n & E & Hle & Hor).
-  assert (E' : fst (run c evs1) = conn_state c n) by (unfold run; rewrite (init_conn_state c HT); exact E).
+  intros c evs1 evs2 HT H1 H2 Hp. cbv zeta.
+  destruct (connecting_run c evs1 (t_start c) (negb (is_server c) && c_proxy c) (init_out c) H1 H2 (or_introl eq_refl)) as (n & p & E & Hle & Hor).
+  assert (E' : fst (run c evs1) = conn_state c n p) by (unfold run; rewrite (init_conn_state c HT); exact E).
+  rewrite E' in Hp. simpl in Hp. subst p.
   rewrite run_split. rewrite E'.
-  assert (Hs : forall log1, I_opened (log1 ++ snd (handle c EHandshake (conn_state c n))) (fst (handle c EHandshake (conn_state c n)))).
+  assert (Hs : forall log1, I_opened (log1 ++ snd (handle c EHandshake (conn_state c n false))) (fst (handle c EHandshake (conn_state c n false)))).
   { intro log1. unfold I_opened. destruct (handshake_from_connecting c n) as [Ea Eb]. rewrite Ea, Eb. simpl. split; [lia|reflexivity]. }
   destruct (presL_run_from I_opened c (step_opened c) evs2 _ _ (Hs (snd (run c evs1)))) as [Ha Hb]. auto.
 Qed.
-
 
 (* ================================================================================================ *)
 (* C17_dead_after_close, full strength: in CLOSED a Tick neither produces output nor touches anything that
